@@ -90,6 +90,152 @@ def tagDispatch (name : String) (p : Str) : Option String :=
   | "VariantStream" => some (typeOp VariantStream.parse Obs.variant VariantStream.show (some fun _ => 1) true p)
   | _ => none
 
+/-- the answer for a value that is already there (built by a constructor), in the format of `type:` / `tag:` -/
+def valueLine {α} (parse : Str → Res α) (obs : α → String) (shw : α → Str) (ver : Option (α → Nat))
+    (tagOrder : Bool) (v : α) : String :=
+  let o := obs v
+  let t := shw v
+  let r := rField parse obs o t
+  let vs := match ver with
+    | some f => " V:" ++ toString (f v)
+    | none => ""
+  if tagOrder then "ok " ++ o ++ " T:" ++ hx t ++ vs ++ " " ++ r
+  else "ok " ++ o ++ " T:" ++ hx t ++ " " ++ r ++ vs
+
+def ctorToks (payload : Str) : Option (List (Str × Str)) :=
+  if payload.contains '\n' then none else
+  let toks := if payload.isEmpty then [] else tokens payload
+  allSome (toks.map fun t => if t.isEmpty then none else splitFirst '=' t)
+
+def tokOf (k : String) (ts : List (Str × Str)) : Option Str := (ts.find? fun kv => kv.1 == k.toList).map (·.2)
+
+def onlyKeys (allowed : List String) (ts : List (Str × Str)) : Bool := ts.all fun kv => allowed.any fun a => kv.1 == a.toList
+
+def methodTok? (s : Str) : Option EncryptionMethod :=
+  if s == "aes".toList then some .aes128 else if s == "saes".toList then some .sampleAes else none
+
+def durTok? (s : Str) : Option Nat :=
+  match parseNat? 128 s with
+  | some ns => if ns / 1000000000 < 2 ^ 64 then some ns else none
+  | none => none
+
+def lenAtStart? (s : Str) : Option (Nat × Nat) :=
+  match splitFirst '@' s with
+  | some (l, st) =>
+    match parseNat? 64 l, parseNat? 64 st with
+    | some len, some start => if start + len < 2 ^ 64 then some (len, start) else none
+    | _, _ => none
+  | none => none
+
+/-- `ctor:<T>`: the public constructors that are not builders; `none` = `bad-op` -/
+def ctorOp (name : String) (payload : Str) : Option String :=
+  match ctorToks payload with
+  | none => none
+  | some ts =>
+    match name with
+    | "ExtXStart" =>
+      if !onlyKeys ["t", "precise"] ts then none else
+      match (tokOf "t" ts).bind bits8? with
+      | some bits =>
+        match Float32.ofBitsFloat bits with
+        | .ok f =>
+          match tokOf "precise" ts with
+          | none => some (valueLine ExtXStart.parse Obs.start ExtXStart.show (some fun _ => 1) true ⟨f, false⟩)
+          | some p => (bool01? p).map fun b => valueLine ExtXStart.parse Obs.start ExtXStart.show (some fun _ => 1) true ⟨f, b⟩
+        | _ => none
+      | none => none
+    | "ExtXSessionData" =>
+      if !onlyKeys ["id", "value", "uri", "lang"] ts then none else
+      match (tokOf "id" ts).bind hexArg? with
+      | some id =>
+        let data : Option SessionData := match tokOf "value" ts, tokOf "uri" ts with
+          | some v, none => (hexArg? v).map SessionData.value
+          | none, some u => (hexArg? u).map SessionData.uri
+          | _, _ => none
+        match data with
+        | some d =>
+          match tokOf "lang" ts with
+          | none => some (valueLine ExtXSessionData.parse Obs.sessiondata ExtXSessionData.show (some fun _ => 1) true ⟨id, d, none⟩)
+          | some l => (hexArg? l).map fun lang =>
+              valueLine ExtXSessionData.parse Obs.sessiondata ExtXSessionData.show (some fun _ => 1) true ⟨id, d, some lang⟩
+        | none => none
+      | none => none
+    | "DecryptionKey" | "ExtXSessionKey" | "ExtXKey" =>
+      if !onlyKeys ["method", "uri"] ts then none else
+      match (tokOf "method" ts).bind methodTok?, (tokOf "uri" ts).bind hexArg? with
+      | some m, some u =>
+        let k : DecryptionKey := ⟨m, u, .missing, none, none⟩
+        if name == "DecryptionKey" then
+          some (valueLine DecryptionKey.parse Obs.deckey DecryptionKey.show (some DecryptionKey.requiredVersion) true k)
+        else if name == "ExtXSessionKey" then
+          some (valueLine ExtXSessionKey.parse Obs.deckey ExtXSessionKey.show (some DecryptionKey.requiredVersion) true k)
+        else some (valueLine ExtXKey.parse Obs.xkey ExtXKey.show (some ExtXKey.requiredVersion) true (some k))
+      | _, _ => none
+    | "ExtXDateRange" =>
+      if !onlyKeys ["id", "start"] ts then none else
+      match (tokOf "id" ts).bind hexArg?, (tokOf "start" ts).bind hexArg? with
+      | some id, some st =>
+        some (valueLine ExtXDateRange.parse Obs.daterange ExtXDateRange.show (some fun _ => 1) true
+          ⟨id, none, some st, none, none, none, none, none, none, false, []⟩)
+      | _, _ => none
+    | "ExtXMedia" =>
+      if !onlyKeys ["type", "group", "name"] ts then none else
+      match tokOf "type" ts, (tokOf "group" ts).bind hexArg?, (tokOf "name" ts).bind hexArg? with
+      | some t, some g, some n =>
+        match MediaType.parse t with
+        | .ok ty => some (valueLine ExtXMedia.parse Obs.xmedia ExtXMedia.show (some ExtXMedia.requiredVersion) true
+            ⟨ty, none, g, none, none, n, false, false, false, none, none, none⟩)
+        | _ => none
+      | _, _, _ => none
+    | "StreamData" =>
+      if !onlyKeys ["bw"] ts then none else
+      ((tokOf "bw" ts).bind (parseNat? 64)).map fun bw =>
+        valueLine StreamData.parse Obs.streamdata StreamData.show (some fun _ => 1) true ⟨bw, none, none, none, none, none⟩
+    | "Channels" =>
+      if !onlyKeys ["n"] ts then none else
+      ((tokOf "n" ts).bind (parseNat? 64)).map fun n => valueLine Channels.parse Obs.channels Channels.show none false ⟨n, false⟩
+    | "Codecs" =>
+      if !onlyKeys ["list"] ts then none else
+      match tokOf "list" ts with
+      | none => some (valueLine (fun s => okR (Codecs.parse s)) Obs.codecs Codecs.show none false ⟨[]⟩)
+      | some l => (hexArg? l).map fun x => valueLine (fun s => okR (Codecs.parse s)) Obs.codecs Codecs.show none false ⟨splitAll ',' x⟩
+    | "ExtXVersion" =>
+      if !onlyKeys ["v"] ts then none else
+      match (tokOf "v" ts).bind (parseNat? 64) with
+      | some v => if 1 ≤ v && v ≤ 7 && tokOf "v" ts == some (toString v).toList then
+          some (valueLine ExtXVersion.parse Obs.nat ExtXVersion.show (some fun _ => 1) true v) else none
+      | none => none
+    | "ExtInf" =>
+      if !onlyKeys ["dur", "title"] ts then none else
+      match (tokOf "dur" ts).bind durTok? with
+      | some d =>
+        match tokOf "title" ts with
+        | none => some (valueLine ExtInf.parse Obs.extinf ExtInf.show (some ExtInf.requiredVersion) true ⟨d, none⟩)
+        | some t => (hexArg? t).map fun x => valueLine ExtInf.parse Obs.extinf ExtInf.show (some ExtInf.requiredVersion) true ⟨d, some x⟩
+      | none => none
+    | "ExtXMap" =>
+      if !onlyKeys ["uri", "range"] ts then none else
+      match (tokOf "uri" ts).bind hexArg? with
+      | some u =>
+        match tokOf "range" ts with
+        | none => some (valueLine ExtXMap.parse Obs.map ExtXMap.show (some fun _ => 6) true ⟨u, none, []⟩)
+        | some r => (lenAtStart? r).map fun (len, start) =>
+            valueLine ExtXMap.parse Obs.map ExtXMap.show (some fun _ => 6) true ⟨u, some ⟨some start, start + len⟩, []⟩
+      | none => none
+    | "ExtXByteRange" =>
+      if !onlyKeys ["range", "to"] ts then none else
+      match tokOf "range" ts, tokOf "to" ts with
+      | some r, none => (lenAtStart? r).map fun (len, start) =>
+          valueLine ExtXByteRange.parse Obs.byterange ExtXByteRange.show (some fun _ => 4) true ⟨some start, start + len⟩
+      | none, some e => (parseNat? 64 e).map fun en =>
+          valueLine ExtXByteRange.parse Obs.byterange ExtXByteRange.show (some fun _ => 4) true ⟨none, en⟩
+      | _, _ => none
+    | "ExtXProgramDateTime" =>
+      if !onlyKeys ["t"] ts then none else
+      ((tokOf "t" ts).bind hexArg?).map fun x =>
+        valueLine ExtXProgramDateTime.parse Obs.pdt ExtXProgramDateTime.show (some fun _ => 1) true ⟨x⟩
+    | _ => none
+
 def mediaFields (p : MediaPlaylist) : Res (String × Str) :=
   match p.show with
   | .ok t => .ok ("ok " ++ Obs.media p ++ " T:" ++ hx t ++ " V:" ++ toString p.requiredVersion ++ " " ++ Obs.dField p, t)
@@ -183,7 +329,8 @@ def buildTagOp {β α} (tok : β → Str → Str → Option β) (init : β) (bui
       | _ => line
 
 def handle (op : String) (payload : Str) (args : List String) : String :=
-  if op.startsWith "build_tag:" then
+  if op.startsWith "ctor:" then (ctorOp (op.drop 5).toString payload).getD "bad-op"
+  else if op.startsWith "build_tag:" then
     match (op.drop 10).toString with
     | "ExtXMedia" => buildTagOp mediaTagToken {} ExtXMediaBuilder.build ExtXMedia.parse Obs.xmedia ExtXMedia.show ExtXMedia.requiredVersion payload
     | "ExtXDateRange" => buildTagOp dateRangeToken {} ExtXDateRangeBuilder.build ExtXDateRange.parse Obs.daterange ExtXDateRange.show (fun _ => 1) payload
